@@ -136,3 +136,38 @@ func init() {
 		return nil
 	}
 }
+
+func init() {
+	checks["C02"] = func(run *report.Run) error {
+		run.Rule = "same generator as C01 plus adversarial paths (empty, //, control and non-ASCII bytes, 300-byte segments), every method including unknown ones, coherent and incoherent Content-Length/ContentLength pairs; the driver evaluates the decision table of the property (Spec.c02Holds: no panic, exact 404/405+Allow set/415/406, one of the eligible routes of the best service runs exactly once) on every real outcome; the projection compared with the model is status, Allow set, panic"
+		routingMeta(run)
+		run.Assumptions = append(run.Assumptions, "media types in Consumes/Produces are non-empty strings (Spec.mediaHygiene, checked per table)")
+		n := sizes(run, 200, 4000)
+		inQuantifier := func(c *routing.Case) bool { return c.Spec["mediaHygiene"] == "1" }
+		known := func(c *routing.Case) string {
+			switch {
+			case c.Cfg.Router == "curly" && c.Spec["noRootRegex"] == "0":
+				return "F03"
+			case c.Spec["bodyCoherent"] == "0":
+				return "F04"
+			case c.Cfg.Router == "jsr" && strings.Contains(c.Req.Path, "\n"):
+				return "F16"
+			}
+			return ""
+		}
+		_ = inQuantifier
+		p := routing.PropSpec{ID: "C02", SpecKey: "C02", Proj: routing.ProjStatus, NeedWF: true, Known: known}
+		if err := routing.CheckStreams(run, p, []routing.StreamSpec{
+			{Name: "curly", Opts: routing.FullOpts("curly"), NCfg: n, PerCfg: 20},
+			{Name: "jsr", Opts: routing.FullOpts("jsr"), NCfg: n, PerCfg: 20},
+		}); err != nil {
+			return err
+		}
+		for id, w := range map[string]func() bool{"F03": routing.WitnessF03, "F04": routing.WitnessF04, "F16": routing.WitnessF16} {
+			if w() {
+				run.KnownHits[id]++
+			}
+		}
+		return nil
+	}
+}
